@@ -21,7 +21,8 @@ RULE = ('one run = one simulated hand. Button games with blind layouts (sb,bb), 
         'hi-lo, razz, 5-card stud high and low, stud high/regular-low) with a rigging dealer that manufactures equal ranks '
         'in different suits, pairs, trips and two pair on the exposed cards; fold/all-in patterns incl. an all-in '
         'designated opener. At the first decision of every betting round the engine\'s actor_index, and the player of '
-        'every BringInPosting, is compared with R-OPEN (ref/open.py: position rule on the blinds actually posted, '
+        'every BringInPosting, is compared with R-OPEN (ref/open.py: position rule on the blinds actually posted, exposed '
+        'cards taken from the dealing records and the street definitions - not from the engine\'s own face-up flags -, '
         'lowest/highest up-card with suit tie-break, best/lowest exposed hand by multiplicities, ties to the earliest '
         'seat) followed by the clockwise skip of players who cannot act. non-trivial = a round with >= 2 players able '
         'to act was opened; distinct = distinct (variant, layout, opening rule, exposed-rank pattern, who can act) digests')
@@ -78,11 +79,28 @@ class OpenMonitor(Monitor):
         self.checked = 0
         self.nontrivial = 0
         self.shapes = []
+        self.ups = None
+        self.got = {}
 
     def on_op(self, world, st, op):
         if self.posted is None:
             self.posted = [0] * st.player_count
         t = type(op).__name__
+        if t == 'HoleDealing':
+            # exposed cards as the STREET DEFINITIONS prescribe them (not as the engine flags them): the j-th card a player
+            # receives on a street has the j-th facing of that street
+            if self.ups is None:
+                self.ups = [[] for _ in range(st.player_count)]
+                self.got = {}
+            k = st.street_index
+            facings = tuple(st.streets[k].hole_dealing_statuses) if k is not None else ()
+            have = self.got.get((op.player_index, k), 0)
+            for j, c in enumerate(op.cards):
+                if have + j < len(facings) and facings[have + j]:
+                    self.ups[op.player_index].append(c)
+            self.got[(op.player_index, k)] = have + len(op.cards)
+        elif t == 'HoleCardsShowingOrMucking' and op.hole_cards and self.ups is not None:
+            self.ups[op.player_index] = list(op.hole_cards)         # tabled cards are exposed from then on
         if t == 'BlindOrStraddlePosting':
             self.posted[op.player_index] += op.amount
         if t in DEAL:
@@ -124,7 +142,7 @@ class OpenMonitor(Monitor):
             designated = ropen.position_opener(n, blinds, first_round, self.posted)
             pattern = ('pos', tuple((x > 0) - (x < 0) for x in blinds), first_round)
         else:
-            ups = {i: list(st.get_up_cards(i)) for i in range(n) if live[i]}
+            ups = {i: list(self.ups[i] if self.ups is not None else st.get_up_cards(i)) for i in range(n) if live[i]}
             designated = ropen.stud_opener(street.opening, ups)
             if designated is None:
                 world.ctx.count('opener_unspecified')
